@@ -194,6 +194,7 @@ func isClientSide(fi *FuncInfo) bool {
 var sourceMethods = map[string]bool{"Attach": true, "Walk": true, "WalkGetAttr": true, "Create": true}
 
 func buildServerModel(l *Loaded) *ServerModel {
+	allDefsLoaded = l
 	db := buildSiteDB(l, "p9")
 	m := &ServerModel{L: l, DB: db, Info: l.Pkg("p9").TypesInfo, res: map[*FuncInfo]*resolver{}}
 	info := m.Info
@@ -513,8 +514,48 @@ func (m *ServerModel) checkedBy(st *HState, root *FuncInfo, fnKey, arg string) b
 // callsDeep returns the call sites of key that run as part of root: the ones written in root
 // itself (callsIn) and the ones inside helpers that the site analysis entered in place
 // (Site.Inl non-empty; their states include what root established before the helper call).
+// blockingIn returns the blocking operations and go statements (SiteDB.Blocking) of root,
+// those written in helpers that are judged in root's context included.
+func (m *ServerModel) blockingIn(root *FuncInfo, callee string) []*Site {
+	var out []*Site
+	seen := map[ast.Node]*Site{}
+	for _, b := range m.DB.Blocking {
+		if b.Root == root && b.Callee == callee {
+			out = append(out, b)
+		}
+	}
+	for _, b := range m.DB.DeepBlocking {
+		if b.Root != root || b.Callee != callee {
+			continue
+		}
+		all := true
+		for _, fr := range b.Inl {
+			if !m.transparent(m.L.FuncOf(m.Info.Defs[fr.Decl.Name].(*types.Func))) {
+				all = false
+			}
+		}
+		if !all {
+			continue
+		}
+		if prev, ok := seen[b.Node]; ok {
+			prev.St = hJoin(prev.St, b.St)
+			continue
+		}
+		cp := *b
+		seen[b.Node] = &cp
+		out = append(out, &cp)
+	}
+	return out
+}
+
 func (m *ServerModel) callsDeep(root *FuncInfo, key string) []*Site {
 	out := m.callsIn(root, key)
+	have := map[[2]*ast.CallExpr]bool{}
+	for _, s := range out {
+		if len(s.Inl) > 0 {
+			have[[2]*ast.CallExpr{s.Call, s.Inl[0].Call}] = true
+		}
+	}
 	type ck struct {
 		call  *ast.CallExpr
 		outer *ast.CallExpr
@@ -526,6 +567,9 @@ func (m *ServerModel) callsDeep(root *FuncInfo, key string) []*Site {
 			continue
 		}
 		k := ck{s.Call, s.Inl[0].Call}
+		if have[[2]*ast.CallExpr{s.Call, s.Inl[0].Call}] {
+			continue // already there as a site of a helper judged in root's context
+		}
 		if prev, ok := by[k]; ok {
 			cp := *prev
 			cp.St = hJoin(prev.St, s.St)
@@ -982,4 +1026,116 @@ func (m *ServerModel) succeededAt(st *HState, site *Site) bool {
 		}
 	}
 	return false
+}
+
+// resultVarIn names, in root's frame, the variable of root that ends up holding result #idx of
+// the call at site: the assignment's own left-hand side for a call written in root, or - for
+// a call inside a helper judged in root's context - the variable the helper's result flows
+// into through its return statements (flowOut).  "" if there is none.
+func (m *ServerModel) resultVarIn(root *FuncInfo, site *Site, idx int) string {
+	o := m.resultObjIn(root, site, idx)
+	if o == nil {
+		return ""
+	}
+	return m.resolver(root).nameOf(o)
+}
+
+func (m *ServerModel) resultObjIn(root *FuncInfo, site *Site, idx int) types.Object {
+	as, ok := m.L.parent(site.Call).(*ast.AssignStmt)
+	if !ok || len(as.Rhs) != 1 {
+		return nil
+	}
+	i := idx
+	if i < 0 {
+		i = len(as.Lhs) + i
+	}
+	if i < 0 || i >= len(as.Lhs) {
+		return nil
+	}
+	o := objOf(m.Info, as.Lhs[i])
+	if o == nil {
+		return nil
+	}
+	for _, c := range m.flowOut(o) {
+		if c.Pos() >= root.Decl.Pos() && c.Pos() < root.Decl.End() {
+			return c
+		}
+	}
+	return nil
+}
+
+// deferredAt: a call of key has been deferred on every path to this state and has not run yet -
+// by the function the state belongs to, or (for a state inside a helper judged in place) by
+// one of the callers whose activation is still open.
+func deferredAt(st *HState, key string) bool {
+	for k := range st.Must {
+		for strings.HasPrefix(k, "outer|") {
+			k = strings.TrimPrefix(k, "outer|")
+		}
+		if k == "defer:"+key {
+			return true
+		}
+	}
+	return false
+}
+
+// boolTest finds the variable of root that tells whether the decision pred was taken: the
+// comma-ok variable of an assignment whose right-hand side satisfies pred, written in root
+// (truth = true), or - when the decision was moved into a private helper judged in root's
+// context - the variable of root that receives a boolean result of the helper which is the
+// constant false exactly on the helper's exits where the decision was taken and the constant
+// true exactly where it was refuted (truth = false), or the other way round.
+func (m *ServerModel) boolTest(root *FuncInfo, pred func(rhs ast.Expr) bool) (name string, truth bool) {
+	if n := m.resultName(root, -1, pred); n != "" {
+		return n, true
+	}
+	res := m.resolver(root)
+	for _, s := range m.DB.ByFunc[root] {
+		h := m.L.FuncOf(callee(m.Info, s.Call))
+		if h == nil || !m.transparent(h) {
+			continue
+		}
+		hn := m.resultName(h, -1, pred)
+		if hn == "" {
+			continue
+		}
+		as, ok := m.L.parent(s.Call).(*ast.AssignStmt)
+		if !ok || len(as.Rhs) != 1 {
+			continue
+		}
+		sig := h.Obj.Type().(*types.Signature)
+		for i := 0; i < sig.Results().Len() && i < len(as.Lhs); i++ {
+			if b, ok := sig.Results().At(i).Type().Underlying().(*types.Basic); !ok || b.Kind() != types.Bool {
+				continue
+			}
+			same, opposite, n := true, true, 0
+			for _, ex := range m.DB.Exits[h] {
+				if ex.Fn != ast.Node(h.Decl) || ex.St.Dead {
+					continue
+				}
+				if ex.Ret == nil || len(ex.Ret.Results) != sig.Results().Len() {
+					same, opposite = false, false
+					break
+				}
+				id, ok := unparen(ex.Ret.Results[i]).(*ast.Ident)
+				if !ok || id.Name != "true" && id.Name != "false" {
+					same, opposite = false, false
+					break
+				}
+				n++
+				val := id.Name == "true"
+				taken, refuted := ex.St.holds(hn, true), ex.St.holds(hn, false)
+				if !(val && taken || !val && refuted) {
+					same = false
+				}
+				if !(val && refuted || !val && taken) {
+					opposite = false
+				}
+			}
+			if n >= 2 && same != opposite {
+				return res.str(as.Lhs[i]), same
+			}
+		}
+	}
+	return "", true
 }
